@@ -138,3 +138,86 @@ func crescentFamily() fw.Family {
 		Check: func(i int64, r *fw.R) { checkCrescent(r, cs[i]) },
 		Desc:  func(i int64) string { return oracle.Fmt(cs[i].data()) + " CCW, and Filling inside M-10 -10L-10 10L10 10L10 -10z" }}
 }
+
+// Filling with curved inner contours whose control polygon (or the loose bounds of an arc) pokes
+// out of the enclosing contour's box while the curve itself stays inside: a quadratic, a cubic
+// or a flat elliptical arc closed by its chord inside the square [0,10]^2, both orientations of
+// both contours, all four rules.
+func hullFillingFamily() fw.Family {
+	type inner struct{ d []float64 }
+	var inners [][]float64
+	mv, qd, cb, ar, cl := float64(oracle.CmdMove), float64(oracle.CmdQuad), float64(oracle.CmdCube), float64(oracle.CmdArc), float64(oracle.CmdClose)
+	for _, cx := range []float64{3, 5, 7} {
+		for _, cy := range []float64{11, 12, -2, -1} {
+			inners = append(inners, []float64{mv, 2, 5, mv, qd, cx, cy, 8, 5, qd, cl, 2, 5, cl})
+			inners = append(inners, []float64{mv, 2, 5, mv, cb, 2, cy, cx + 1, cy, 8, 5, cb, cl, 2, 5, cl})
+		}
+	}
+	for _, y := range []float64{8, 9, 2, 1} {
+		for _, fl := range []float64{0, 2} {
+			inners = append(inners, []float64{mv, 1, y, mv, ar, 4, 1, 0, fl, 9, y, ar, cl, 1, y, cl})
+		}
+	}
+	_ = inner{}
+	n := int64(len(inners)) * 4
+	data := func(i int64) (outer, in []float64) {
+		k := int(i / 4)
+		outerCCW, innerRev := i%2 == 0, (i/2)%2 == 1
+		if outerCCW {
+			outer = oracle.ClosedData([]oracle.Pt{{X: 0, Y: 0}, {X: 10, Y: 0}, {X: 10, Y: 10}, {X: 0, Y: 10}})
+		} else {
+			outer = oracle.ClosedData([]oracle.Pt{{X: 0, Y: 0}, {X: 0, Y: 10}, {X: 10, Y: 10}, {X: 10, Y: 0}})
+		}
+		in = inners[k]
+		if innerRev {
+			in = cv.Path(in).Reverse().Data()
+		}
+		return
+	}
+	return fw.Family{Name: "Filling: curved inner contours whose control hull leaves the box of the enclosing square x orientations", N: n,
+		Check: func(i int64, r *fw.R) {
+			outer, in := data(i)
+			both := append(append([]float64{}, outer...), in...)
+			pls := oracle.DenseData(both, 256)
+			if len(pls) != 2 {
+				r.Outcome("hull-filling:skipped")
+				return
+			}
+			// the inner contour must really be inside the square
+			for _, q := range pls[1].P {
+				if q.X <= 0 || q.X >= 10 || q.Y <= 0 || q.Y >= 10 {
+					r.Outcome("hull-filling:inner-not-inside-skipped")
+					return
+				}
+			}
+			var probe oracle.Pt
+			found := false
+			cp := pls[1].P
+			for k := 0; k+2 < len(cp) && !found; k += 5 {
+				m := oracle.Pt{X: (cp[k].X + cp[k+1].X + cp[(k+len(cp)/2)%len(cp)].X) / 3, Y: (cp[k].Y + cp[k+1].Y + cp[(k+len(cp)/2)%len(cp)].Y) / 3}
+				if oracle.Winding([]oracle.Polyline{pls[1]}, m) != 0 && oracle.Dist([]oracle.Polyline{pls[1]}, m, true) > 1e-3 {
+					probe, found = m, true
+				}
+			}
+			if !found {
+				r.Outcome("hull-filling:no-probe")
+				return
+			}
+			r.NontrivialIdx()
+			p := cv.Path(both)
+			for _, rule := range rules {
+				got := p.Filling(rule)
+				want := cv.Fills(rule, oracle.Winding(pls, probe))
+				wantOuter := cv.Fills(rule, oracle.Winding(pls, oracle.Pt{X: 0.01, Y: 0.01}))
+				if len(got) != 2 || got[1] != want || got[0] != wantOuter {
+					r.Violate("filling", fmt.Sprintf("Filling(%v) = %v; the winding number just inside the square is %d and inside the inner contour at (%.4g,%.4g) it is %d", rule, got, oracle.Winding(pls, oracle.Pt{X: 0.01, Y: 0.01}), probe.X, probe.Y, oracle.Winding(pls, probe)))
+					return
+				}
+			}
+			r.Outcome("hull-filling:checked")
+		},
+		Desc: func(i int64) string {
+			outer, in := data(i)
+			return oracle.Fmt(append(append([]float64{}, outer...), in...)) + " Filling"
+		}}
+}
